@@ -1,7 +1,8 @@
 (* What the Go code cog prints MEANS: entry points used by the correspondence checks (cases are
    produced by vlib/gencode.py from the real generated code's output).  Definitions only. *)
 From Coq Require Import List String ZArith Bool Ascii.
-From Cog Require Export Model.IR Model.Json Model.GoSemBase Model.GoSemDecode Model.GoSemEquals.
+From Cog Require Export Model.IR Model.Json Model.GoSemBase Model.GoSemDecode Model.GoSemEquals
+  Model.GoSemValidate Model.GoSemStrict.
 Import ListNotations.
 Local Open Scope list_scope.
 Local Open Scope string_scope.
@@ -10,7 +11,8 @@ Local Open Scope string_scope.
 Fixpoint ty_supported (ctx : schemas) (t : ty) : bool :=
   match t with
   | TScalar _ k _ cs =>
-      match k with KNull | KBytes | KOther _ => false | _ => true end
+      (match k with KNull | KBytes | KOther _ => false | _ => true end
+       && forallb (constraint_supported k) cs)%bool
   | TArray _ v => ty_supported ctx v
   | TMap _ i v => (match i with TScalar _ KString _ _ => true | _ => false end && ty_supported ctx v)%bool
   | TStruct _ _ fs => forallb (fun f => ty_supported ctx (f_type f)) fs
@@ -95,3 +97,86 @@ Fixpoint matrix_eqb (a b : list (list (option bool))) : bool :=
           end) r s && matrix_eqb a' b')%bool
   | _, _ => false
   end.
+
+(* ---------- one driver job: documents and everything observed about them ---------- *)
+Record docobs := mkObs
+  { ob_std : string ;                  (* "ok" | "err" | "panic" *)
+    ob_enc : option json ;             (* json.Marshal of the decoded value *)
+    ob_val : option (list string) ;    (* Validate(): None = not run, Some paths (empty = nil error) *)
+    ob_strict : string ;               (* "ok" | "err" | "panic" *)
+    ob_senc : option json }.           (* json.Marshal of the strictly decoded value *)
+
+Definition gcase := (schemas * string * string * list json * list docobs * list (list (option bool)))%type.
+
+Definition outcome_tag {A} (o : outcome A) : string :=
+  match o with GOk _ => "ok" | GErr => "err" | GPanic => "panic" | GUnmodelled _ => "unmodelled" end.
+
+Definition strict_roundtrip (ctx : schemas) (p n : string) (j : json) : outcome json :=
+  match strict_object ctx p n j with
+  | GOk v => GOk (encode_object ctx p n v)
+  | GErr => GErr
+  | GPanic => GPanic
+  | GUnmodelled w => GUnmodelled w
+  end.
+
+Definition roundtrip_agrees (model : outcome json) (tag : string) (enc : option json) : bool :=
+  match model, enc with
+  | GOk e, Some e' => (seqb tag "ok" && json_eq e e')%bool
+  | GOk _, None => false
+  | m, _ => seqb (outcome_tag m) tag
+  end.
+
+(* multiset comparison of path lists *)
+Fixpoint insert_sorted (x : string) (l : list string) : list string :=
+  match l with
+  | [] => [x]
+  | y :: r => if str_leb x y then x :: l else y :: insert_sorted x r
+  end.
+Definition sort_strings (l : list string) : list string := fold_right insert_sorted [] l.
+Fixpoint strings_eqb (a b : list string) : bool :=
+  match a, b with
+  | [], [] => true
+  | x :: r, y :: s => (seqb x y && strings_eqb r s)%bool
+  | _, _ => false
+  end.
+Definition paths_agree (a b : list string) : bool := strings_eqb (sort_strings a) (sort_strings b).
+
+Definition model_validate (ctx : schemas) (p n : string) (j : json) : option (list string) :=
+  match decode_object ctx p n j with
+  | GOk v => Some (validate_object ctx p n v)
+  | _ => None
+  end.
+
+Definition case_unmodelled (c : gcase) : bool :=
+  let '(ctx, p, n, docs, obs, mat) := c in
+  (negb (ctx_supported ctx) ||
+   existsb (fun d => (is_unmodelled (decode_object ctx p n d) || is_unmodelled (strict_object ctx p n d))%bool) docs)%bool.
+
+Definition all_docs (f : json -> docobs -> bool) (docs : list json) (obs : list docobs) : bool :=
+  (Nat.eqb (List.length docs) (List.length obs) && forallb (fun dj => f (fst dj) (snd dj)) (combine docs obs))%bool.
+
+Definition mm_std (c : gcase) : bool :=
+  let '(ctx, p, n, docs, obs, mat) := c in
+  (negb (case_unmodelled c) &&
+   negb (all_docs (fun d o => roundtrip_agrees (std_roundtrip ctx p n d) (ob_std o) (ob_enc o)) docs obs))%bool.
+
+Definition mm_strict (c : gcase) : bool :=
+  let '(ctx, p, n, docs, obs, mat) := c in
+  (negb (case_unmodelled c) &&
+   negb (all_docs (fun d o => roundtrip_agrees (strict_roundtrip ctx p n d) (ob_strict o) (ob_senc o)) docs obs))%bool.
+
+Definition mm_validate (c : gcase) : bool :=
+  let '(ctx, p, n, docs, obs, mat) := c in
+  (negb (case_unmodelled c) &&
+   negb (all_docs (fun d o => match model_validate ctx p n d, ob_val o with
+                              | Some a, Some b => paths_agree a b
+                              | None, None => true
+                              | Some _, None => negb (seqb (ob_std o) "ok")   (* Validate not requested *)
+                              | None, Some _ => false
+                              end) docs obs))%bool.
+
+(* the Equals matrix over [std values ; strict values] *)
+Definition mm_equals (c : gcase) : bool :=
+  let '(ctx, p, n, docs, obs, mat) := c in
+  (negb (case_unmodelled c) &&
+   negb (matrix_eqb (model_eq_matrix ctx p n (map (decode_object ctx p n) docs ++ map (strict_object ctx p n) docs)) mat))%bool.
